@@ -695,6 +695,10 @@ def access_kind(f, n):
         if k == 'ImplicitCastExpr' and p.get('ck') == 'ArrayToPointerDecay':
             cur = p
             continue
+        if k == 'ImplicitCastExpr' and p.get('ck') in ('UncheckedDerivedToBase', 'DerivedToBase', 'NoOp'):
+            # the object seen as its base class (obj.base_method()) / a qualification change: same object
+            cur = p
+            continue
         if cur.get('k') == 'ImplicitCastExpr' and cur.get('ck') == 'ArrayToPointerDecay':
             # the array's address is kept in a pointer through which it can be written
             t = None
